@@ -153,7 +153,9 @@ def specBuild (prop : String) (ba : BuildArgs) (o : Out) : Option String :=
        | .error e, _ => some ("undecodable:" ++ e)
        | .ok r, some md =>
          let m := Mode.ofIx md
-         if !Spec.alphabetOK m ba.input then none else
+         -- a symbol that reports a mode whose alphabet does not contain the input cannot carry the ISO encoding of the
+         -- input as one segment of that mode (a forced mode that rejects its input panics by contract: no symbol then)
+         if !Spec.alphabetOK m ba.input then some "reported-mode-cannot-represent-the-input" else
          cmp "data-codewords" (toHex (Spec.Bitstream.codewords m v r.ecl ba.input)) (toHex r.dataCodewords)
        | _, none => some "mode-not-reported")
     | "C10" => none
